@@ -14,11 +14,12 @@ import (
 )
 
 type Clause struct {
-	Tag  string
-	Src  string
-	E    *SExpr
-	File string
-	Line int
+	Tag   string
+	Src   string
+	E     *SExpr
+	File  string
+	Line  int
+	Leave bool // loop exit clause that also applies to return statements written inside the loop
 }
 
 type Contract struct {
@@ -46,6 +47,7 @@ type Contract struct {
 	Steps     map[int][]Clause // per-iteration two-state clauses (prev(e) = value at the loop head)
 	Asserts   []Clause
 	Uses      []Clause // lemma instantiations at entry
+	TypeFacts [][2]string         // typefact <kind> <Type>: a static fact about a type the (assumed) contract presumes; checked where the contract is used
 	Before    map[string][]Clause // proof steps checked (then assumed) before calls to the named callee; callee parameter names are in scope
 	DeadRets  map[int]bool // returns (by source order) that are unreachable under the contract
 	File      string
@@ -106,7 +108,7 @@ var pkgClauseRe = regexp.MustCompile(`^package\s+(\w+)`)
 
 var clauseKeywords = map[string]bool{"requires": true, "ensures": true, "modifies": true, "pure": true, "assumed": true,
 	"functype": true, "loop": true, "results": true, "params": true, "maypanic": true, "wrapping": true, "assert": true, "use": true, "allocates": true,
-	"nonblocking": true, "ghostset": true, "callsonce": true, "before": true, "dead": true, "func": true, "iface": true, "lemma": true, "import": true, "trustframe": true, "refines": true, "assuming": true, "chanvalue": true, "initfact": true, "axiom": true, "ghostfield": true, "uninterp": true, "const": true}
+	"nonblocking": true, "ghostset": true, "callsonce": true, "before": true, "dead": true, "func": true, "iface": true, "lemma": true, "import": true, "trustframe": true, "refines": true, "assuming": true, "typefact": true, "chanvalue": true, "initfact": true, "axiom": true, "ghostfield": true, "uninterp": true, "const": true}
 
 // loadContractFile parses one file. defaultPkg is used for keys without package qualifier
 // (the Go package name of the file for in-repo contract files).
@@ -365,6 +367,12 @@ func (ct *ContractTable) loadContractFile(path string) error {
 					}
 					cur.Modifies = append(cur.Modifies, c)
 				}
+			case "typefact":
+				// typefact plainjson <Type>
+				if len(fields) != 3 || fields[1] != "plainjson" {
+					return fmt.Errorf("%s:%d: bad typefact clause (known kind: plainjson)", path, rl.line)
+				}
+				cur.TypeFacts = append(cur.TypeFacts, [2]string{fields[1], fields[2]})
 			case "before":
 				// before <calleeKey> assert [tag] expr
 				if len(fields) < 4 || fields[2] != "assert" {
@@ -441,7 +449,7 @@ func (ct *ContractTable) loadContractFile(path string) error {
 				cur.FuncTypes[strings.TrimSuffix(fields[1], ":")] = fields[2]
 			case "loop":
 				// loop N invariant [tag] expr
-				if len(fields) < 4 || (fields[2] != "invariant" && fields[2] != "step" && fields[2] != "exit") {
+				if len(fields) < 4 || (fields[2] != "invariant" && fields[2] != "step" && fields[2] != "exit" && fields[2] != "leave") {
 					return fmt.Errorf("%s:%d: bad loop clause", path, rl.line)
 				}
 				n, err := strconv.Atoi(fields[1])
@@ -461,6 +469,13 @@ func (ct *ContractTable) loadContractFile(path string) error {
 					if cur.Exits == nil {
 						cur.Exits = map[int][]Clause{}
 					}
+					cur.Exits[n] = append(cur.Exits[n], c)
+				} else if fields[2] == "leave" {
+					// loop N leave e: like exit, but return statements written inside the loop count too
+					if cur.Exits == nil {
+						cur.Exits = map[int][]Clause{}
+					}
+					c.Leave = true
 					cur.Exits[n] = append(cur.Exits[n], c)
 				} else {
 					cur.Loops[n] = append(cur.Loops[n], c)
